@@ -280,6 +280,38 @@ pub fn run(args: &Args) {
         // case on its own with a fresh valid id (what the tracker holds at the end must be the reference's)
         for step_no in 0..(n_steps + 6) {
             let audit: Option<usize> = if step_no >= n_steps { Some(step_no - n_steps) } else { None };
+            if v.acl != 0 && audit.is_none() && rng.chance(1, 8) {
+                // rewrite the tracker's access list file and signal the process (SIGUSR1): the case's own
+                // entry may go, a second torrent of the case may come; sometimes the file is unreadable
+                let ok = rng.chance(3, 4);
+                let keep0 = rng.chance(1, 2);
+                let add1 = rng.chance(1, 2);
+                let mut text: String = acl_hashes()
+                    .iter()
+                    .filter(|h| keep0 || **h != pool[0])
+                    .map(|h| format!("{}\n", h.iter().map(|b| format!("{:02x}", b)).collect::<String>()))
+                    .collect();
+                if add1 {
+                    text.push_str(&format!("{}\n", pool[1].iter().map(|b| format!("{:02x}", b)).collect::<String>()));
+                }
+                if !ok {
+                    text.push_str("not-an-info-hash\n");
+                }
+                std::fs::write(dir.join(format!("acl-{}.txt", port)), text).unwrap();
+                unsafe {
+                    libc::kill(libc::getpid(), libc::SIGUSR1);
+                }
+                std::thread::sleep(Duration::from_millis(250));
+                let mut listed: Vec<String> = Vec::new();
+                if keep0 {
+                    listed.push(cq::hex(&pool[0]));
+                }
+                if add1 {
+                    listed.push(cq::hex(&pool[1]));
+                }
+                items.push(format!("SysReload {} {}", cq::list(&listed), cq::b(ok)));
+                continue;
+            }
             let ci = match audit { Some(a) => if a < 3 { 0 } else { 3 }, None => rng.below(clients.len() as u64) as usize };
             if audit.is_some() {
                 let (_, fresh, _) = marker(&mut ctx, &clients[ci]);
